@@ -158,9 +158,7 @@ fn main() {
         let _ = rayon::ThreadPoolBuilder::new().num_threads(2).build_global();
     }
     // panics inside catch_unwind are expected in places: keep stderr quiet
-    if std::env::var("VERIF_SHOW_PANICS").is_err() {
-        std::panic::set_hook(Box::new(|_| {}));
-    }
+    dump::install_panic_hook(std::env::var("VERIF_SHOW_PANICS").is_ok());
     let ctx = Ctx { seed, thorough: tier == "thorough", verif_dir, replay };
     let mut rep = Report::new(&prop);
     let mut model = model::Model::spawn(&model_path);
